@@ -46,6 +46,18 @@ def direct_cases(tier, seed):
         if rng.random() < 0.5:
             s += [0x61, 0x0a]
         cases.append(("1 %s" % encb(utf8(s)), s, True))
+    # a CR inside the line whose followers are all erased by backspaces, so that it ends up right before the LF: it was not
+    # part of the terminator when the line was read and stays in the text
+    for k in range(n // 10):
+        s = []
+        for _ in range(rng.randint(1, 3)):
+            s += [rng.choice([0x61, 0x62, 0xe9, 0x65e5]) for _ in range(rng.randint(0, 3))]
+            s.append(0x0d)
+            m = rng.randint(1, 3)
+            s += [rng.choice([0x61, 0x78, 0xe9]) for _ in range(m)] + [0x08] * (m + rng.choice([0, 0, 0, 1, -1]) if m > 1 else m)
+            s += rng.choice([[0x0a], [0x0a], [0x0d, 0x0a]])
+        v = rng.random() < 0.3
+        cases.append(("%d %s" % (v, encb(utf8(s))), s, v))
     # the scripted validator (every verdict, errors included): ## error, !! invalid with a message, ~~ invalid with an
     # empty message, ?? invalid without message, trailing backslash incomplete, ok valid with a message
     frag = [[0x23, 0x23], [0x21, 0x21], [0x7e, 0x7e], [0x3f, 0x3f], [0x5c], [0x6f, 0x6b], [0x61], [0x62], [0x20], [0xe9],
